@@ -179,6 +179,27 @@ def get_plan(pid):
                         rtc=["generic_spec"], replay=_c19_replay,
                         technique="contracts on GenericSpecifier.__and__/__or__/__invert__/__contains__/__post_init__ and Empty/Any.__contains__; VCs from the real AST over SMT strings (z3 seq, cvc5 fallback)",
                         trusted_base=["A-ENGINE", "A-STDLIB: Python `s in t` on str is substring containment, str ordering is code-point lexicographic (= SMT-LIB str.<)", "A-TERM"])
+    if pid == "C08":
+        return JobsPlan("C08", [(f"tags_python.{k}", "tags_python", {"chunk": (k, 16)}) for k in range(16)], rtc=["tags_python"],
+                        replay=lambda name, rec: ({"suite": "tags_python", "arg": rec["model"]} if (rec.get("model") or {}).get("python_tag") else None),
+                        technique="contract on EnvSpec._evaluate_python: symbolic execution of the real body on every concrete (python tag, abi tag) of the finite universe "
+                                  "with requires_python an arbitrary set of versions (uninterpreted predicate) and 5 implementation settings; post-condition 'compatible iff some admitted "
+                                  "version loads the wheel' and the score triple; z3",
+                        trusted_base=["A-ENGINE", "law.C05.empty-exact: (a & b).is_empty() iff no version lies in both (from the C01/C05 proofs, dense idealisation)",
+                                      "A-PARSE-SHAPE: parse_version_specifier on the four tag-derived text shapes ('>=X.Y', '==X.Y.*', '==X.*', '>=X.Y,==X.*') returns the "
+                                      "corresponding interval and raises InvalidSpecifier on non-numeric tags (guarded by the bounded part, which runs the real parser)",
+                                      "A-STDLIB: str slicing/split/replace/lower/startswith/endswith and int() evaluated by CPython on the concrete tag strings", "A-TERM"],
+                        assumptions=["tags are lower-case (PEP 425 universe); free-threaded x abi3 is outside the statement"])
+    if pid == "C16":
+        jobs = [("C16.nested", "tags_compare", {"which": "nested"})]
+        jobs += [(f"C16.compare.{k}", "tags_compare", {"which": "compare", "chunk": (k, 6)}) for k in range(6)]
+        jobs += [(f"C16.widen.{k}", "tags_compare", {"which": "widen", "chunk": (k, 9)}) for k in range(9)]
+        return JobsPlan("C16", jobs, rtc=["tags_compare"],
+                        technique="(i) two-copy symbolic execution of the real _evaluate_python under requires_python(A) subset requires_python(B); (ii) nestedness lemma over the proved C09 rules; "
+                                  "(iii) symbolic execution of the real EnvSpec.compare in both directions over the platform-shape table; z3",
+                        trusted_base=["A-ENGINE", "the C08 trusted base (law.C05.empty-exact, A-PARSE-SHAPE)", "the C09 contract of compatible_tags (proved by the C09 check) links the rules to the real tag lists",
+                                      "law.C13: == on requires_python objects is symmetric and implies equal sets (proved by the C13 check)", "A-DATACLASS", "A-TERM"],
+                        assumptions=["nestedness is claimed on the stated grid: same major for manylinux/musllinux, macOS 10.x minors <= 16, claimed (non-fat) macOS formats"])
     if pid == "C09":
         return JobsPlan("C09", [(f"tags_platform.{k}", "tags_platform", {"chunk": (k, 16)}) for k in range(16)], rtc=["tags_platform"],
                         replay=lambda name, rec: ({"suite": "platform_replay", "arg": {"platform": rec["model"]["platform"]}} if (rec.get("model") or {}).get("platform") else None),
